@@ -193,10 +193,81 @@ func c04Large(r *verdict.Run, shard int, size int) {
 	r.Distinct(fmt.Sprintf("large/regrown/%d", modelLen(d.m, 0, "big")))
 }
 
+// collidingPair finds two names whose emulator hashes share exactly `bits` low bits (they differ in the next one).
+func collidingPair(rng *rand.Rand, prefix string, bits int) (string, string, bool) {
+	mask := uint64(1)<<uint(bits) - 1
+	seen := map[uint64]string{}
+	for i := 0; i < 3000000; i++ {
+		name := fmt.Sprintf("%s%x", prefix, rng.Int63())
+		h := sutHash(name)
+		if other, ok := seen[h&mask]; ok && other != name {
+			if (sutHash(other)>>uint(bits))&1 != (h>>uint(bits))&1 {
+				return other, name, true
+			}
+			continue
+		}
+		seen[h&mask] = name
+	}
+	return "", "", false
+}
+
+// c04Collisions: fields/members/keys whose hashes share many low bits force long chains of table doublings;
+// both elements must be stored and stay readable. (The names are found with a port of the emulator's hash;
+// the oracle is the ordinary reference model.)
+func c04Collisions(r *verdict.Run) {
+	rng := shardRng(r, 777)
+	c, err := startChild(false)
+	if err != nil {
+		r.Inconclusive("cannot start child")
+		return
+	}
+	defer func() { c.Stop() }()
+	for _, bits := range []int{12, 16, 20, 31} {
+		a, b, ok := collidingPair(rng, "cf", bits)
+		if !ok {
+			r.Inconclusive(fmt.Sprintf("no pair of names sharing %d hash bits found", bits))
+			continue
+		}
+		for _, where := range []string{"hash-fields", "set-members", "keys"} {
+			if !c.Alive() {
+				c.Stop()
+				if c, err = startChild(false); err != nil {
+					return
+				}
+			}
+			d, err := newDiffEnv(r, c, []string{"hh", "ss", a, b})
+			if err != nil {
+				r.Inconclusive("infra: " + err.Error())
+				return
+			}
+			d.monitor = "collision"
+			var script [][]string
+			switch where {
+			case "hash-fields":
+				script = [][]string{{"HSET", "hh", "pad", "0"}, {"HSET", "hh", a, "1"}, {"HSET", "hh", b, "2"}, {"HGET", "hh", a}, {"HGET", "hh", b}, {"HLEN", "hh"}, {"HDEL", "hh", a}, {"HGET", "hh", b}, {"HSET", "hh", a, "3"}, {"HGETALL", "hh"}}
+			case "set-members":
+				script = [][]string{{"SADD", "ss", "pad"}, {"SADD", "ss", a}, {"SADD", "ss", b}, {"SISMEMBER", "ss", a}, {"SISMEMBER", "ss", b}, {"SCARD", "ss"}, {"SREM", "ss", a}, {"SISMEMBER", "ss", b}, {"SMEMBERS", "ss"}}
+			case "keys":
+				script = [][]string{{"SET", a, "1"}, {"SET", b, "2"}, {"GET", a}, {"GET", b}, {"DBSIZE"}, {"DEL", a}, {"GET", b}, {"KEYS", "*"}}
+			}
+			d.collisionBits = bits
+			for _, st := range script {
+				if _, ok := d.step(st); !ok {
+					break
+				}
+				r.Eval(1)
+			}
+			r.Distinct(fmt.Sprintf("collision/%s/%d-bits", where, bits))
+			d.close()
+		}
+	}
+}
+
 func checkC04(r *verdict.Run) {
 	r.Rule = "random sequences of hash commands over 2 small hashes + wrong-typed/missing keys, the exhaustive HINCRBY (old value x delta) sign table, and large hashes grown across several table doublings, shrunk and regrown with the whole mapping re-read after every step; " +
 		"oracle per step: reply = reference model reply (HRANDFIELD by predicate), full mapping = model, failed commands inert. distinct = (command+options, prior key class, outcome class) + table cells"
 	c04SignTable(r)
+	c04Collisions(r)
 	sizes := []int{60, 150}
 	if r.Tier == "thorough" {
 		sizes = []int{50, 100, 200, 400, 800, 300, 600, 120}
